@@ -136,6 +136,10 @@ def c16(quick):
         # a timeout is set and never reached by any single wait, although the whole run lasts much longer
         S.append((D(mode=mode, nj=2, pre=4, bs=1, timeout=0.04, calls=[dict(n=12), dict(n=3)]), "random", rnd))
         S.append((D(mode=mode, nj=2, pre="all", bs=1, timeout=0.03, calls=[dict(n=9)]), "random", rnd))
+        # ... deterministically: whichever batch is watched for the timeout stays pending for most of the run in one of the two orders
+        for how in ("lifo", "fifo"):
+            S.append((D(mode=mode, nj=2, pre="all", bs=1, timeout=0.03, calls=[dict(n=9)]), how, 1))
+            S.append((D(mode=mode, nj=3, pre=6, bs=1, timeout=0.04, calls=[dict(n=12), dict(n=3)]), how, 1))
         # warnings are errors (python -W error): the "exit early" warning raised while closing must not skip the abort
         S.append((D(mode=mode, nj=2, pre=2, bs=1, warn_error=True, calls=[dict(n=6, cons="close"), dict(n=3)]), "random", rnd))
         S.append((D(mode=mode, nj=2, pre=3, bs=1, warn_error=True, managed=True, calls=[dict(n=6, cons="close"), dict(n=3)]), "random", rnd))
